@@ -168,6 +168,17 @@ Theorem C16_check_case_sound : forall c : case, wf c -> check_case c = true ->
   end.
 Proof. exact check_case_sound. Qed.
 
+(* sequences of calls on ONE array object modified in place between the calls (case kind sequence/inplace):
+   a passing sequence establishes the same for EVERY call, each against the contents at the time of that call *)
+Theorem C16_check_seq_sound : forall steps : list step,
+  Forall (fun s => wf (step_case s)) steps -> check_case (CSeq steps) = true ->
+  Forall (fun s => match observed (step_case s), real_value (step_case s) with
+                   | Ok (Some (m, e)), Ok x => Rabs (x - dblR m e) <= / IZR (2 ^ 30)
+                   | Raise e, Raise e' => e = e'
+                   | _, _ => False
+                   end) steps.
+Proof. exact check_seq_sound. Qed.
+
 (* ---- non-vacuity ---- *)
 
 (* the exact layer on concrete inputs: multi-character and negative states stay whole symbols;
@@ -226,3 +237,4 @@ Print Assumptions C16_enclosure_ami.
 Print Assumptions C16_table_sound.
 Print Assumptions C16_within_sound.
 Print Assumptions C16_check_case_sound.
+Print Assumptions C16_check_seq_sound.
